@@ -152,3 +152,28 @@ Example C14_rows_nonvacuous :
   cast ex_pf noskip ex_o (s "18446744073709551616") true [] = VStr (s "18446744073709551616") /\
   cast ex_pf noskip ex_o (s "-9223372036854775808") true [] = VI64 (-9223372036854775808).
 Proof. vm_compute. repeat split. Qed.
+
+(* ================================================================== tie to the code (regenerated on every run)
+   Gen/Pure_gen.v is go2v's statement-by-statement translation of func cast in /repo's CURRENT xml.go
+   (Crash = a run-time panic).  It IS the model function every theorem above is about, for every package state,
+   every registered skip function and every argument; so those theorems are re-checked against what the code
+   says now, not only against the cases the correspondence run samples. *)
+From Mxj Require Import Gen.Setters_gen Gen.PureSupport Gen.Pure_gen GenProofs.PureG.
+
+Theorem C14_cast_code_is_model : forall pf callskip st o x r t, cast_view st o ->
+  fn_cast pf callskip st x r t = Ret (cast pf (skip_of st callskip) o x r t).
+Proof. exact cast_code_is_model. Qed.
+Print Assumptions C14_cast_code_is_model.
+
+Theorem C14_cast_code_no_panic : forall pf callskip st x r t, fn_cast pf callskip st x r t <> Crash.
+Proof. exact cast_code_no_panic. Qed.
+Print Assumptions C14_cast_code_no_panic.
+
+(* the translated code on concrete inputs: the initial package state, a leaf that overflows int64, a plus-signed infinity *)
+Example C14_cast_code_nonvacuous :
+  cast_view gstate0 opts0 /\
+  fn_cast ex_pf (fun _ => false) (with_castToInt true gstate0) (s "18446744073709551615") true [] = Ret (VU64 18446744073709551615) /\
+  fn_cast ex_pf (fun _ => false) gstate0 (s "+Infinity") true [] = Ret (VStr (s "+Infinity")) /\
+  fn_cast ex_pf (fun _ => false) gstate0 (s "True") true [] = Ret (VBool true) /\
+  fn_cast ex_pf (fun _ => false) gstate0 (s "True") false [] = Ret (VStr (s "True")).
+Proof. vm_compute. repeat split. Qed.
